@@ -2,7 +2,7 @@ INIT IndInit
 NEXT Next
 CONSTANTS
   Ids = {1, 2, 3}
-  Vias = {2340, 1, 292}
+  Vias = {2340, 1}
   MaxDepth = 5
 VIEW IndView
 INVARIANT IndInv
